@@ -10,6 +10,9 @@ def explore(res, scale=1, seed=None):
     # the harness runs under an address-space limit (common.run_harness): an allocation driven by an
     # unchecked length takes the process down, which is reported with the pending input as the replay
     colfam.run_family(res, "c06", BUDGET[res.tier] * scale, seed, builds=("default", "purego"))
+    # sequences of blocks (with zero-row header-shaped blocks in between) into one set of targets, typed and inferred:
+    # consistency after every block (direct oracle)
+    colfam.run_family(res, "c06seq", 400 * scale, seed, builds=("default",), sample=False)
     colfam.run_family(res, "c06msg", BUDGET[res.tier] * scale // 3, seed, builds=("default",), glue="Msg", gluemod="GlueMsg")
     res.extra["rule"] = ("field-targeted mutants of valid column encodings of the catalogue (8-byte windows set to boundary and huge "
                          "values, single bytes, bit flips, spliced over-long varints, splices between columns, other declared row "
